@@ -43,11 +43,15 @@ def splitNul : Bytes → Bytes → List Bytes
   | cur, [] => [cur.reverse]
   | cur, b :: bs => if b == 0 then cur.reverse :: splitNul [] bs else splitNul (b :: cur) bs
 
-/-- `parse_files0_args` on the file content (names are assumed valid UTF-8): the names, and
-    whether the zero-length-name diagnostic is printed -/
+/-- `parse_files0_args` on the file content: the names, and whether the zero-length-name
+    diagnostic is printed -/
 def files0 (content : Bytes) : List Bytes × Bool :=
   let segs := splitNul [] content
   let segs := if segs.getLast? == some [] then segs.dropLast else segs
   (segs.filter (!·.isEmpty), segs.any (·.isEmpty))
+
+/-- starting points are held as strings: a name that is not valid UTF-8 makes `parse_files0_args`
+    fail - the run is refused, as it is for such a word among the operands (`main`) -/
+def files0Ok (content : Bytes) : Bool := (splitNul [] content).all FuModel.Utf8.validUtf8
 
 end FuModel.Find.Run
